@@ -29,11 +29,14 @@ def widths_f(freq):
 
 
 def width_d(dirs):
-    """Direction bin width of a uniform full-circle grid (1 for a single direction)."""
+    """Direction bin width of a uniformly spaced grid (full circle or a sector, stored in any
+    order): the smallest circular gap between two distinct directions; 1 for a single direction."""
     n = len(dirs)
     if n == 1:
         return 1.0
-    return 360.0 / n
+    s = sorted(float(x) % 360.0 for x in dirs)
+    gaps = [b - a for a, b in zip(s, s[1:])] + [s[0] + 360.0 - s[-1]]
+    return min(g for g in gaps if g > 0)
 
 
 def oned(E, dirs):
